@@ -51,16 +51,23 @@ saturated at its declared arguments and its body — in particular the array in 
 evaluated once per call rather than once per entry access. -/
 structure MatV (R : Type) where
   f : MatF R
+  /-- second field: keeps the structure from being compiled as its only field (a one-field
+  structure is represented by that field, and a definition returning it would be eta-expanded
+  over the entry indices, recomputing its body at every entry access) -/
+  tag : Nat := 0
+
+def MatV.of {R : Type} (f : MatF R) : MatV R := { f := f }
+@[simp] theorem MatV.of_f {R : Type} (f : MatF R) : (MatV.of f).f = f := rfl
 
 /-- materialise the `r × c` window of `g` into an array (evaluated once), read back from it.
 Provably the identity (`forceV_f`); it exists only so that execution stays polynomial. -/
 def forceV (r c : Nat) (g : MatF R) : MatV R :=
   let arr : Array R := Array.ofFn (n := r * c) (fun t => g (t.val / c) (t.val % c))
-  ⟨fun i j => if i < r ∧ j < c then arr.getD (i * c + j) (g i j) else g i j⟩
+  MatV.of (fun i j => if i < r ∧ j < c then (match arr[i * c + j]? with | some v => v | none => g i j) else g i j)
 
 @[simp] theorem forceV_f (r c : Nat) (g : MatF R) : (forceV r c g).f = g := by
   funext i j
-  simp only [forceV]
+  simp only [forceV, MatV.of_f]
   split
   · rename_i h
     obtain ⟨hi, hj⟩ := h
@@ -69,8 +76,8 @@ def forceV (r c : Nat) (g : MatF R) : MatV R :=
         _ = (i + 1) * c := by ring
         _ ≤ r * c := Nat.mul_le_mul_right _ hi
     have hpos : 0 < c := by omega
-    rw [Array.getD_eq_getD_getElem?, Array.getElem?_ofFn]
-    simp only [hlt, dite_true, Option.getD_some]
+    rw [Array.getElem?_ofFn]
+    simp only [hlt, dite_true]
     congr 1
     · rw [Nat.add_comm, Nat.add_mul_div_right _ _ hpos, Nat.div_eq_of_lt hj]; simp
     · rw [Nat.add_comm, Nat.add_mul_mod_self_right, Nat.mod_eq_of_lt hj]
